@@ -169,8 +169,9 @@ EXCLUDED_FRAME = {'draws-outside': 'MonteCarlo', 'rv-outside': 'Integrate'}
 FORMULA_KINDS = ['missing-column', 'draws-outside', 'rv-outside', 'duplicate-beta-column', 'duplicate-free-fixed',
                  'var-outside-trajectory', 'logit-keys', 'logit-choice']
 FRAME_BETAS = {'bfr': {'value': 0.5, 'fixed': False, 'positive': True, 'lb': None, 'ub': None},
-               'x2': {'value': 0.5, 'fixed': False, 'positive': True, 'lb': None, 'ub': None},
-               'b_dup': {'value': 0.25, 'fixed': False, 'positive': True, 'lb': None, 'ub': None}}
+               # value 1: a valid key / alternative where the planted parameter sits in a key or choice slot
+               'x2': {'value': 1.0, 'fixed': False, 'positive': True, 'lb': None, 'ub': None},
+               'b_dup': {'value': 1.0, 'fixed': False, 'positive': True, 'lb': None, 'ub': None}}
 
 
 def logit_leaf(rng, kind):
@@ -201,13 +202,15 @@ def logit_leaf(rng, kind):
     return bad, good, '77', ('column', keys)
 
 
-def build_chain(rng, kind, target):
+def build_chain(rng, kind, target, panel=False):
     """nest 0-2 frames with a `real` slot around the target frame; returns (builder, path description)"""
     outer = []
     excl = EXCLUDED_FRAME.get(kind)
     for _ in range(rng.choice([0, 0, 1, 1, 2])):
         # at most one Monte-Carlo / integration operator on the path (nesting them is itself a fault)
         used = {f[0] for f in outer + [target]} & {'MonteCarlo', 'Integrate'}
+        if panel:
+            used = used | {'MonteCarlo'}      # on panel data a MonteCarlo must contain the trajectory operator
         cands = [f for f in FRAMES if f[2] == 'real' and f[0] != excl and f[0] != 'Catalog' and f[0] not in used]
         outer.append(rng.choice(cands))
     chain = outer + [target]
@@ -222,14 +225,20 @@ def build_chain(rng, kind, target):
 
 def gen_fault_case(rng, kind, target, depth):
     """valid formula + one planted fault at the hole of `target`, embedded at a random node of a random valid tree"""
-    panel = kind == 'var-outside-trajectory' or (kind == 'missing-column' and rng.random() < 0.12)
+    panel = (kind == 'var-outside-trajectory' or (kind == 'missing-column' and rng.random() < 0.12)) and target[0] != 'MonteCarlo'
+    if kind == 'var-outside-trajectory' and not panel:
+        kind = 'missing-column'
     excl = ['LogLogit'] if panel else []
     base = gen_case(rng, variables=True, max_depth=depth, n_rows=3, exclude=excl)
     tree, betas, rows = base['tree'], dict(base['betas']), [dict(r) for r in base['rows']]
     for r, kb, kg in zip(rows, [5.0, 1.0, 2.0], [1.0, 1.0, 2.0]):
         r['kbad'] = kb
         r['kgood'] = kg
-    mk, chain = build_chain(rng, kind, target)
+    if panel and target[0] == 'MonteCarlo':
+        panel = False
+        if kind == 'var-outside-trajectory':
+            kind = 'missing-column'
+    mk, chain = build_chain(rng, kind, target, panel)
     extra = None
     if kind in ('logit-keys', 'logit-choice'):
         bad, good, mention, variant = logit_leaf(rng, kind)
@@ -426,7 +435,7 @@ def stream_faults(ctx):
                     'the real objects vs Model/Audit.v with the generated table, evaluated in Coq; non-trivial = a planted '
                     'fault or >= 6 nodes')
     rng = ctx.sub_rng('faults')
-    n_rounds = ctx.n(2, 30)
+    n_rounds = ctx.n(2, 12)
     cases = load_corpus('formula')
     for rnd in range(n_rounds):
         for target in FRAMES:
@@ -435,7 +444,8 @@ def stream_faults(ctx):
                 continue
             if target[0] == 'Catalog':
                 kinds = [k for k in kinds if k != 'var-outside-trajectory']
-            k = kinds[(rnd * 7 + FRAMES.index(target)) % len(kinds)] if ctx.quick else rng.choice(kinds)
+            # round robin: after len(kinds) <= 8 rounds every (frame, fault kind) pair has been planted
+            k = kinds[(rnd + 3 * FRAMES.index(target) + ctx.seed) % len(kinds)]
             cases.append(gen_fault_case(rng, k, target, rng.choice([2, 3, 4])))
     items, meta = [], []
     for ci, c in enumerate(cases):
@@ -877,12 +887,21 @@ def stream_missing(ctx):
             continue
         st.record(light, nontrivial=m['planted'])
         failed = 'value' not in r
+        if v == 'differ' and failed and isinstance(info, dict) and info.get('model') == '-inf' and any(
+                c in (r.get('msg') or '') for c, x in it['row'].items() if x == it['code']):
+            # the chosen alternative of a logit is unavailable: the engine walks the alternatives by increasing identifier and
+            # reads those before the chosen one; evalX answers -inf without fixing that order: not decided by the model
+            und += 1
+            split['logit-order-undecided'] = split.get('logit-order-undecided', 0) + 1
+            continue
         if v == 'differ':
             st.disagree(light, info, r)
             cols = [k for k, x in it['row'].items() if x == it['code']]
             cls = m['name']
             if not failed and linutil_reads(it['tree'], cols):
                 cls = 'linear-utility'
+            if failed and logit_audit_reads(it['tree'], cols) and any(c in (r.get('msg') or '') for c in cols):
+                cls = 'logit-audit'
             if failed:
                 what = ('the evaluation fails although the lazy semantics does not read any cell holding the missing-data code '
                         '(the code sits in an unread column / branch)') if m['planted'] else 'the evaluation of a regular observation fails'
@@ -913,6 +932,19 @@ def stream_missing(ctx):
         ctx.stream_broken('missing', f'coverage floor: {split}')
     if st.disagreements:
         ctx.stream_broken('missing', f'{len(st.disagreements)} disagreements; first: {json.dumps(st.disagreements[0], default=str)[:900]}')
+
+
+def mentions_var(t, cols):
+    return (t['h'][0] == 'Var' and t['h'][1] in cols) or any(mentions_var(k, cols) for k in t['k'])
+
+
+def logit_audit_reads(t, cols):
+    """a logit whose choice or availabilities (evaluated on every row by LogLogit.audit) use a column holding the code"""
+    if t['h'][0] == 'LogLogit':
+        nu = len(t['h'][1])
+        if any(mentions_var(k, cols) for k in [t['k'][0]] + t['k'][1 + nu:]):
+            return True
+    return any(logit_audit_reads(k, cols) for k in t['k'])
 
 
 def linutil_reads(t, cols):
